@@ -315,3 +315,47 @@ Proof.
     destruct (list_eqb_spec str_eqb str_eqb_spec a b) as [->|_]; cbn; rewrite ?app_nil_r; split; reflexivity.
   - intros a. destruct (list_eqb_spec str_eqb str_eqb_spec a a) as [_|H]; [reflexivity|congruence].
 Qed.
+
+(* ------------------------------------------------------------------------------------------------------------------ *)
+(** ** [C03_run_diffs_compose] WITHOUT the premise [HW], for runs whose dependency manifests are written by the modelled
+    requirements.txt / setup.cfg writers (added by the C14 engineer; Model/ManifestRun.v, Proofs/ManifestRunFacts.v,
+    Properties/C14.v: C14_writer_diff_roundtrip).
+    The writer oracle [W] is instantiated by [W_manifest matcher line_of defined_of lv]: the line surgery of
+    Model/Manifest.v with the diff the real writers report (create_diff over difflib's opcodes of the lines read and the
+    lines written).  It answers only inside a decidable guard - LF manifest (no "\r": kf_manifest_crlf), requirement
+    strings without line boundary, setup.cfg with a newline-separated list whose rewritten lines are LF-clean (no inline
+    list, no glued unterminated last line, no phantom line) - and [None] otherwise and for pyproject.toml / setup.py
+    stores: for those (tomlkit / libcst oracles; kf_pyproject_phantom_line) HW stays an unproved premise and the claim
+    rests on the end-to-end observation only.  What remains assumed here: the two difflib-matcher contracts and the
+    transformer contract, exactly as in [C03_run_diffs_compose]. *)
+From CM Require Import Base.Types_Manifest Model.ManifestRun Proofs.ManifestRunFacts.
+
+Definition C03_run_diffs_compose_manifest_statement (tb : run_tables) : Prop :=
+  if nochange_guarded tb && diff_from_text tb then
+    forall (tree : Type) parse code T S R (matcher : list str -> list str -> script)
+           (line_of : str -> str) (defined_of : str -> option str) (lv : cfg_last_line) fsel (cfg : config) (p : path),
+      (forall a b, a_of (matcher a b) = a /\ b_of (matcher a b) = b) ->
+      (forall a, hunks (matcher a a) = []) ->
+      dry_run cfg = false ->
+      (forall K b t fi t' chs ds, parse (cpipe K) b = Some t -> T K t fi = Changed t' chs ds -> clean b ->
+                                  clean (code (cpipe K) t')) ->
+      forall (Ks : list codemod) (fs : fsys) (stores : list store) (s' : state) (c : bytes),
+        run tb tree parse code T S R (real_diff matcher) (W_manifest matcher line_of defined_of lv) fsel cfg Ks fs stores = Run.Ok s' ->
+        NoDup (map cid Ks) -> lookup fs p = Some c -> clean c ->
+        exists c', lookup (s_fs s') p = Some c' /\
+                   fold_apply (reported p Ks s') c = Some (match reported p Ks s' with [] => c | _ => norm_nl c' end) /\
+                   (reported p Ks s' = [] -> c' = c)
+  else True.
+Lemma C03_run_diffs_compose_manifest_all tb : C03_run_diffs_compose_manifest_statement tb.
+Proof.
+  pose proof (C03_run_diffs_compose_all tb) as H.
+  unfold C03_run_diffs_compose_manifest_statement, C03_run_diffs_compose_statement in *.
+  destruct (nochange_guarded tb && diff_from_text tb); [|exact I].
+  intros tree parse code T S R matcher line_of defined_of lv fsel cfg p Hv He Hdry HT Ks fs stores s' c Hr Hnd Hl Hc.
+  exact (H tree parse code T S R matcher (W_manifest matcher line_of defined_of lv) fsel cfg p Hv He Hdry HT
+           (fun k b ds b' d chs HW Hb => W_manifest_roundtrip matcher line_of defined_of lv Hv k b ds b' d chs HW Hb)
+           Ks fs stores s' c Hr Hnd Hl Hc).
+Qed.
+Theorem C03_run_diffs_compose_manifest : C03_run_diffs_compose_manifest_statement run_tables_v.
+Proof. exact (C03_run_diffs_compose_manifest_all run_tables_v). Qed.
+Print Assumptions C03_run_diffs_compose_manifest.
